@@ -138,6 +138,8 @@ func makeBlock(kind string, key []byte) kcp.BlockCrypt {
 		b, err = kcp.NewBlowfishBlockCrypt(key[:32])
 	case "twofish": // pure Go, 16-byte blocks
 		b, err = kcp.NewTwofishBlockCrypt(key[:32])
+	case "sm4": // pure Go; its cipher VALUE keeps scratch state: one value must never run in two goroutines
+		b, err = kcp.NewSM4BlockCrypt(key[:16])
 	default:
 		return nil
 	}
@@ -160,7 +162,7 @@ func childMain(seed uint64, tier, out string) {
 	// AES-CFB touches the shared enc/dec buffers only inside assembly (AES-NI block function, XORBytes),
 	// which the race detector does not instrument; blowfish and twofish are pure Go and make races on
 	// blockCrypt.encbuf / decbuf observable.
-	for _, c := range []string{"nil", "aes", "salsa20", "gcm", "blowfish", "twofish"} {
+	for _, c := range []string{"nil", "aes", "salsa20", "gcm", "blowfish", "twofish", "sm4"} {
 		for _, f := range []bool{false, true} {
 			// alternate the transport; thorough runs both transports for every configuration
 			for _, mem := range []bool{false, true} {
